@@ -766,7 +766,11 @@ namespace trompeloeil {
     virtual
     ~tracer()
     {
-      set_tracer(previous);
+      // tracers need not be destroyed in reverse order of construction:
+      // unlink this one from the chain of live tracers wherever it is
+      auto p = &tracer_obj();
+      while (*p && *p != this) p = &(*p)->previous;
+      if (*p) *p = previous;
     }
   private:
     tracer* previous = set_tracer(this);
